@@ -57,6 +57,8 @@ def wrap(rng, vals, kind, name="v"):
         return pd.DataFrame({name: list(vals)}, index=gen.hostile_index(n, ik, rng)), True
     if kind == "dict":
         return {name: np.asarray(vals)}, False
+    if kind == "dict_series":  # a dict whose value is a pandas object carrying its own index labels
+        return {name: pd.Series(list(vals), index=gen.hostile_index(n, ik, rng))}, True
     raise ValueError(kind)
 
 
@@ -225,9 +227,10 @@ def api_threshold(d, args):
 API = {"metricframe": api_metricframe, "metricframe2": api_metricframe2, "fairness": api_fairness, "moments": api_moments, "eg": api_eg, "grid": api_grid, "threshold": api_threshold}
 # accepted container kinds per argument and API
 KINDS = {
-    "metricframe": {"y": VEC, "p": VEC, "w": ["list", "ndarray", "series"], "g": ["list", "ndarray", "series", "df_named", "dict", "col"], "c": ["list", "ndarray", "series", "df_named", "dict"]},
-    "fairness": {"y": VEC, "p": VEC, "w": ["list", "ndarray", "series"], "g": ["list", "ndarray", "series", "df_named", "dict"]},
-    "metricframe2": {"y": VEC, "p": VEC, "w": ["list", "ndarray", "series"], "g2": ["ndarray2d", "df2", "dict2"]},
+    "metricframe": {"y": VEC, "p": VEC, "w": ["list", "ndarray", "series"], "g": ["list", "ndarray", "series", "df_named", "dict", "dict_series", "col"],
+                    "c": ["list", "ndarray", "series", "df_named", "dict", "dict_series"]},
+    "fairness": {"y": VEC, "p": VEC, "w": ["list", "ndarray", "series"], "g": ["list", "ndarray", "series", "df_named", "dict", "dict_series"]},
+    "metricframe2": {"y": VEC, "p": VEC, "w": ["list", "ndarray", "series"], "g2": ["ndarray2d", "df2", "dict2", "dict2_series", "dict2_series"]},
     "moments": {"y": VEC, "g": ["list", "ndarray", "series", "df", "df_named"], "c": ["list", "ndarray", "series", "df", "df_named"], "X": ["ndarray", "Xdf"]},
     "eg": {"y": VEC, "g": ["list", "ndarray", "series", "df", "df_named"], "c": ["list", "ndarray", "series", "df_named"], "X": ["ndarray", "Xdf"]},
     "grid": {"y": VEC, "g": ["list", "ndarray", "series", "df", "df_named"], "c": ["list", "ndarray", "series", "df_named"], "X": ["ndarray", "Xdf"]},
@@ -289,6 +292,13 @@ def build_args(rng, api, d, baseline):
                 args[arg] = np.column_stack([np.asarray(c_, dtype=object) for c_ in cols])
             elif kind == "df2":
                 args[arg] = pd.DataFrame({nm[0]: cols[0], nm[1]: cols[1]}, index=gen.hostile_index(d["n"], gen.pick(rng, [k for k in gen.INDEX_KINDS if k != "range"]), rng))
+                hostile = True
+            elif kind == "dict2_series":
+                # two pandas columns that carry DIFFERENT index labels (each a permutation of 0..n-1, an offset range or strings)
+                iks = [gen.pick(rng, ["shuffled", "reversed", "offset", "str", "range"]) for _ in range(2)]
+                if iks[0] == iks[1] == "range":
+                    iks[1] = "shuffled"
+                args[arg] = {nm[j]: pd.Series(list(cols[j]), index=gen.hostile_index(d["n"], iks[j], rng)) for j in range(2)}
                 hostile = True
             else:
                 args[arg] = {nm[0]: np.asarray(cols[0]), nm[1]: list(cols[1])}
